@@ -127,11 +127,18 @@ Proof. exact trans_core_body. Qed.
 Print Assumptions C19_dist_core_roles.
 
 (** translation of the front does not change the distances: all three functions (the selection copies are
-    [trans_body true mat vec_wt obj_wt]), and also the unguarded variant *)
+    [trans_body true mat obj_wt vec_wt]), and also their former code and the unguarded variant *)
 Theorem C19_translation_invariant : forall m guard mat t mulv lin, rectm m mat -> length t = m -> length mulv = m ->
   tres_eq (trans_body guard (map (fun r => map2 Qplus r t) mat) mulv lin) (trans_body guard mat mulv lin).
 Proof. exact translation_invariant_lemma. Qed.
 Print Assumptions C19_translation_invariant.
+
+(** in particular both selection copies (the hypothesis is on the sign vector, which multiplies the columns) *)
+Theorem C19_translation_invariant_sel : forall m mat t sign pref, rectm m mat -> length t = m -> length sign = m ->
+  tres_eq (trans_sel_prob (map (fun r => map2 Qplus r t) mat) sign pref) (trans_sel_prob mat sign pref) /\
+  tres_eq (trans_sel_fn (map (fun r => map2 Qplus r t) mat) sign pref) (trans_sel_fn mat sign pref).
+Proof. intros m mat t sign pref Hr Ht Hs. split; now apply (translation_invariant_lemma m true). Qed.
+Print Assumptions C19_translation_invariant_sel.
 
 Theorem C19_translation_invariant_core : forall m mat t minmax pw, rectm m mat -> length t = m -> length minmax = m ->
   tres_eq (trans_core (map (fun r => map2 Qplus r t) mat) minmax pw) (trans_core mat minmax pw).
@@ -145,11 +152,12 @@ Theorem C19_finite_when_constant_core : forall mat minmax pw, mat <> [] -> Foral
 Proof. exact finite_core. Qed.
 Print Assumptions C19_finite_when_constant_core.
 
-(** ... and both selection copies (current code, guard present) for every non-zero line vector *)
-Theorem C19_finite_when_constant_sel : forall mat obj_wt vec_wt, mat <> [] -> Exists (fun x => ~ x == 0) obj_wt ->
+(** ... and both selection copies (current code: guard present, documented roles) for every sign vector and every
+    non-zero line vector vec_wt / wt, in particular every non-negative non-zero preference vector *)
+Theorem C19_finite_when_constant_sel : forall mat obj_wt vec_wt, mat <> [] -> Exists (fun x => ~ x == 0) vec_wt ->
   (exists d2, trans_sel_prob mat obj_wt vec_wt = TFinite d2 /\ length d2 = length mat /\ Forall (fun d => 0 <= d) d2) /\
   (exists d2, trans_sel_fn mat obj_wt vec_wt = TFinite d2 /\ length d2 = length mat /\ Forall (fun d => 0 <= d) d2).
-Proof. intros mat o v Hm Ho. split; now apply finite_guarded. Qed.
+Proof. intros mat o v Hm Hv. split; now apply finite_guarded. Qed.
 Print Assumptions C19_finite_when_constant_sel.
 
 (** the selection copies as they were before commit 47ce3c75 (no guard): a constant objective gives NaN *)
@@ -158,28 +166,38 @@ Theorem C19_finite_unguarded_refuted : exists mat obj_wt vec_wt, mat <> [] /\ Fo
 Proof. exact unguarded_refuted. Qed.
 Print Assumptions C19_finite_unguarded_refuted.
 
-(** the selection copies multiply the columns by vec_wt (documented as the preference vector) and measure the
-    distance to the line spanned by obj_wt (documented as the +1/-1 signs): they are the core function with the
-    two vectors exchanged ... *)
-Theorem C19_sel_is_core_with_exchanged_roles : forall mat obj_wt vec_wt, Forall (fun x => 0 <= x) obj_wt -> Exists (fun x => 0 < x) obj_wt ->
-  trans_sel_prob mat obj_wt vec_wt = trans_core mat vec_wt obj_wt /\ trans_sel_fn mat obj_wt vec_wt = trans_core mat vec_wt obj_wt.
-Proof. exact sel_is_core_swapped. Qed.
-Print Assumptions C19_sel_is_core_with_exchanged_roles.
+(** the selection copies multiply the columns by obj_wt / objfn_wt (the objective signs) and measure the distance to the
+    line spanned by vec_wt / wt (the preference vector), as documented: for every sign vector and every non-negative
+    non-zero preference vector they are the core function with the same roles, hence (C19_dist_core_roles,
+    C19_dist_is_residual_norm2) the geometric distance to the preference vector.  Full strength since commit 9b993ed9
+    (formerly only for two coinciding vectors: C19_sel_documented_roles_partial) *)
+Theorem C19_sel_documented_roles : forall mat sign pref, Forall (fun x => 0 <= x) pref -> Exists (fun x => 0 < x) pref ->
+  trans_sel_prob mat sign pref = trans_core mat sign pref /\ trans_sel_fn mat sign pref = trans_core mat sign pref.
+Proof. exact sel_is_core. Qed.
+Print Assumptions C19_sel_documented_roles.
 
-(** ... so with the documented roles they do not compute the distance to the preference vector (known finding
-    C19-trans-roles-swapped) ... *)
-Theorem C19_sel_documented_roles_refuted : exists mat sign pref,
+(** the same as a statement about the common body, without any hypothesis on the vectors *)
+Theorem C19_sel_is_body_with_documented_roles : forall mat sign pref,
+  trans_sel_prob mat sign pref = trans_body true mat sign pref /\ trans_sel_fn mat sign pref = trans_body true mat sign pref.
+Proof. intros. split; reflexivity. Qed.
+Print Assumptions C19_sel_is_body_with_documented_roles.
+
+(** regression witnesses about the FORMER code of the selection copies ([old_trans_sel], before commit 9b993ed9, finding
+    C19-trans-roles-swapped): it was the core function with the two vectors exchanged ... *)
+Theorem C19_old_sel_is_core_with_exchanged_roles : forall mat obj_wt vec_wt, Forall (fun x => 0 <= x) obj_wt -> Exists (fun x => 0 < x) obj_wt ->
+  old_trans_sel mat obj_wt vec_wt = trans_core mat vec_wt obj_wt.
+Proof. exact old_sel_is_core_swapped. Qed.
+Print Assumptions C19_old_sel_is_core_with_exchanged_roles.
+
+(** ... so with the documented roles it did not compute the distance to the preference vector, on an input where the
+    current code does *)
+Theorem C19_old_sel_documented_roles_refuted : exists mat sign pref,
   Forall (fun s => s == 1 \/ s == -(1)) sign /\ Forall (fun x => 0 <= x) pref /\ Exists (fun x => 0 < x) pref /\
-  ~ tres_eq (trans_sel_prob mat sign pref) (trans_core mat sign pref) /\
-  ~ tres_eq (trans_sel_fn mat sign pref) (trans_core mat sign pref).
-Proof. exact sel_roles_refuted. Qed.
-Print Assumptions C19_sel_documented_roles_refuted.
-
-(** ... except when both vectors coincide (the default keyword arguments: two all-ones vectors) *)
-Theorem C19_sel_documented_roles_partial : forall mat w, Forall (fun x => 0 <= x) w -> Exists (fun x => 0 < x) w ->
-  trans_sel_prob mat w w = trans_core mat w w /\ trans_sel_fn mat w w = trans_core mat w w.
-Proof. exact sel_roles_partial. Qed.
-Print Assumptions C19_sel_documented_roles_partial.
+  ~ tres_eq (old_trans_sel mat sign pref) (trans_core mat sign pref) /\
+  tres_eq (trans_sel_prob mat sign pref) (trans_core mat sign pref) /\
+  tres_eq (trans_sel_fn mat sign pref) (trans_core mat sign pref).
+Proof. exact old_sel_roles_refuted. Qed.
+Print Assumptions C19_old_sel_documented_roles_refuted.
 
 (** non-vacuity: concrete values meeting the hypotheses *)
 Example C19_hyps_satisfiable :
